@@ -77,7 +77,7 @@ def cases(draw):
         t, info = draw(gen.share(t))
         if info:
             src += '+aliases'
-    return {'model': spec, 'text': T.render_flow(t), 'src': src}
+    return {'model': spec, 'text': T.render_flow(t), 'src': src, 'prelude': draw(st.booleans())}
 
 
 def permute_spec(spec, variant):
@@ -202,6 +202,26 @@ def check(case, ctx):
         ctx.count('out_of_domain_' + bad)
         return
     m = models.build(spec)
+    if case.get('prelude'):
+        # "the outcome does not depend on the order of class registration":
+        # other load functions that registered only part of a hierarchy (each
+        # class with registered subclasses on its own, then its subclasses
+        # without it) have been created and used before this one
+        subs = {}
+        for c in spec['classes']:
+            for b in c.get('bases', []):
+                subs.setdefault(b, []).append(c['name'])
+        regs = {c.__name__: c for c in m.registered}
+        for b in sorted(subs):
+            if b in regs:
+                for group in ([regs[b]], [regs[n] for n in subs[b] if n in regs]):
+                    for cls in group:
+                        try:
+                            yatiml.load_function(cls, *group)(text)
+                        except Exception:
+                            pass
+                ctx.count('partial_load_functions_used_first')
+        m.reset()
     ref = refsem.Ref(m)
     ref.track = True
     tree = pt.from_plain(T.plain(node))
@@ -319,7 +339,7 @@ def enum_tagged(maxn):
                         continue
                     for tg in tags:
                         if i % nshards == shard:
-                            yield {'portfolio': name, 'text': tg + text}
+                            yield {'portfolio': name, 'text': tg + text, 'prelude': (i // nshards) % 4 == 0}
                         i += 1
     return gen_
 
